@@ -66,3 +66,11 @@ impl<T, E> WithStacktrace<Result<T, ErrorEnvelope<E>>> for Result<T, E> {
         self.map_err(|err| ErrorEnvelope::new_draining_stacktrace(err, stacktrace))
     }
 }
+
+#[cfg(feature = "verif")]
+impl<T> ErrorEnvelope<T> {
+    /// The positions carried by the envelope (innermost first).
+    pub fn verif_positions(&self) -> &[Position] {
+        &self.1
+    }
+}
